@@ -38,7 +38,7 @@ def cases(draw, tier):
     spec = draw(gen.table_specs(tier, values=kind, md=True, history=False))
     steps = draw(st.lists(alphabet.op_strategy(), min_size=1,
                           max_size=6 if tier == "quick" else 10))
-    return {"table": spec, "steps": steps}
+    return {"table": spec, "steps": steps, "phase": draw(st.integers(0, 7))}
 
 
 def strategy(tier):
@@ -49,7 +49,12 @@ def close(a, b):
     return math.isclose(a, b, rel_tol=1e-9, abs_tol=1e-12)
 
 
-def invariant(t, seen, what):
+def invariant(t, seen, what, phase=0):
+    """Coherence of `t`.  Ground truth is the dense matrix of a deep copy
+    (reading a copy leaves the table's layout and any cached state alone);
+    the accessor groups then run in an order rotated by `phase`, so that
+    every group is, for some step, the first thing that touches the table
+    after an operation (a stale cache is only visible to the first reader)."""
     from biom.exception import UnknownIDError
     c = deepcopy(t)
     D = np.asarray(c.matrix_data.toarray(), dtype=float)
@@ -94,76 +99,102 @@ def invariant(t, seen, what):
         return
     nz = {(obs[i], samp[j]) for i in range(n) for j in range(m)
           if D[i, j] != 0}
-    # per-ID vectors, per-cell values
-    for k, i in enumerate(obs):
-        v = t.data(i, axis="observation")
-        if v.tolist() != D[k, :].tolist():
-            bad("data", "data(%r, observation)=%r, matrix row %r" %
-                (i, v.tolist(), D[k, :].tolist()))
-    for k, i in enumerate(samp):
-        v = t.data(i, axis="sample")
-        if v.tolist() != D[:, k].tolist():
-            bad("data", "data(%r, sample)=%r, matrix column %r" %
-                (i, v.tolist(), D[:, k].tolist()))
-    for a, o in enumerate(obs):
-        for b, s in enumerate(samp):
-            if float(t.get_value_by_ids(o, s)) != D[a, b]:
-                bad("cell", "get_value_by_ids(%r,%r)=%r, matrix %r" %
-                    (o, s, t.get_value_by_ids(o, s), D[a, b]))
-    # iteration
-    for axis, ids, vec in (("observation", obs, lambda k: D[k, :]),
-                           ("sample", samp, lambda k: D[:, k])):
-        md = t.metadata(axis=axis)
-        it = list(t.iter(axis=axis))
-        if [str(x[1]) for x in it] != ids:
-            bad("iter", "iter(%s) ids %r" % (axis, [x[1] for x in it]))
-        for k, (v, i, mdk) in enumerate(it):
-            if np.asarray(v).tolist() != vec(k).tolist():
-                bad("iter", "iter(%s) vector of %r" % (axis, i))
-            want = None if md is None else md[k]
-            if mdk is not want and mdk != want:
-                bad("iter", "iter(%s) metadata of %r" % (axis, i))
-        itd = [np.asarray(v).tolist() for v in t.iter_data(axis=axis)]
-        if itd != [vec(k).tolist() for k in range(len(ids))]:
-            bad("iter_data", "iter_data(%s) %r" % (axis, itd))
-        if len(ids) <= 4:
-            pairs = list(t.iter_pairwise(axis=axis))
-            want_pairs = [(a, b) for a in range(len(ids))
-                          for b in range(a + 1, len(ids))]
-            if [(str(p[0][1]), str(p[1][1])) for p in pairs] != \
-                    [(ids[a], ids[b]) for a, b in want_pairs]:
-                bad("iter_pairwise", "%s pairs %r" %
-                    (axis, [(p[0][1], p[1][1]) for p in pairs]))
-            for p, (a, b) in zip(pairs, want_pairs):
-                if np.asarray(p[0][0]).tolist() != vec(a).tolist() or \
-                        np.asarray(p[1][0]).tolist() != vec(b).tolist():
-                    bad("iter_pairwise", "%s vectors for %r" % (axis,
-                                                               (a, b)))
-    # non-zero listing
-    lst = [(str(a), str(b)) for a, b in t.nonzero()]
-    if len(lst) != len(set(lst)) or set(lst) != nz:
-        bad("nonzero", "nonzero() lists %r, non-zero cells are %r" %
-            (sorted(lst), sorted(nz)))
-    # sums, counts, density
-    if not close(float(t.sum("whole")), float(D.sum())):
-        bad("sum", "sum(whole)=%r, matrix %r" % (t.sum("whole"), D.sum()))
-    for axis, want in (("sample", D.sum(axis=0)),
-                       ("observation", D.sum(axis=1))):
-        got = np.asarray(t.sum(axis)).tolist()
-        if len(got) != len(want) or not all(close(a, b) for a, b in
-                                            zip(got, want.tolist())):
-            bad("sum", "sum(%s)=%r, matrix %r" % (axis, got, want.tolist()))
-    if t.nnz != len(nz):
-        bad("nnz", "nnz=%r, non-zero cells %d" % (t.nnz, len(nz)))
-    if not close(t.get_table_density(), len(nz) / float(n * m)):
-        bad("density", "density %r, expected %r" % (t.get_table_density(),
-                                                    len(nz) / float(n * m)))
+
+    def g_counts():
+        if t.nnz != len(nz):
+            bad("nnz", "nnz=%r, non-zero cells %d" % (t.nnz, len(nz)))
+        if not close(t.get_table_density(), len(nz) / float(n * m)):
+            bad("density", "density %r, expected %r" %
+                (t.get_table_density(), len(nz) / float(n * m)))
+        r = repr(t)
+        if "%d x %d" % (n, m) not in r or \
+                "with %d nonzero entries" % len(nz) not in r:
+            bad("repr", "repr %r, table is %d x %d with %d non-zero" %
+                (r, n, m, len(nz)))
+
+    def g_data(axis):
+        def f():
+            ids = obs if axis == "observation" else samp
+            for k, i in enumerate(ids):
+                v = t.data(i, axis=axis)
+                want = D[k, :] if axis == "observation" else D[:, k]
+                if v.tolist() != want.tolist():
+                    bad("data", "data(%r, %s)=%r, matrix vector %r" %
+                        (i, axis, v.tolist(), want.tolist()))
+        return f
+
+    def g_cells():
+        for a, o in enumerate(obs):
+            for b, s in enumerate(samp):
+                if float(t.get_value_by_ids(o, s)) != D[a, b]:
+                    bad("cell", "get_value_by_ids(%r,%r)=%r, matrix %r" %
+                        (o, s, t.get_value_by_ids(o, s), D[a, b]))
+
+    def g_iter(axis):
+        def f():
+            ids = obs if axis == "observation" else samp
+            vec = (lambda k: D[k, :]) if axis == "observation" else \
+                (lambda k: D[:, k])
+            md = t.metadata(axis=axis)
+            it = list(t.iter(axis=axis))
+            if [str(x[1]) for x in it] != ids:
+                bad("iter", "iter(%s) ids %r" % (axis, [x[1] for x in it]))
+            for k, (v, i, mdk) in enumerate(it):
+                if np.asarray(v).tolist() != vec(k).tolist():
+                    bad("iter", "iter(%s) vector of %r" % (axis, i))
+                want = None if md is None else md[k]
+                if mdk is not want and mdk != want:
+                    bad("iter", "iter(%s) metadata of %r" % (axis, i))
+            itd = [np.asarray(v).tolist() for v in t.iter_data(axis=axis)]
+            if itd != [vec(k).tolist() for k in range(len(ids))]:
+                bad("iter_data", "iter_data(%s) %r" % (axis, itd))
+            if len(ids) <= 4:
+                pairs = list(t.iter_pairwise(axis=axis))
+                want_pairs = [(a, b) for a in range(len(ids))
+                              for b in range(a + 1, len(ids))]
+                if [(str(p[0][1]), str(p[1][1])) for p in pairs] != \
+                        [(ids[a], ids[b]) for a, b in want_pairs]:
+                    bad("iter_pairwise", "%s pairs %r" %
+                        (axis, [(p[0][1], p[1][1]) for p in pairs]))
+                for p, (a, b) in zip(pairs, want_pairs):
+                    if np.asarray(p[0][0]).tolist() != vec(a).tolist() or \
+                            np.asarray(p[1][0]).tolist() != vec(b).tolist():
+                        bad("iter_pairwise", "%s vectors for %r" %
+                            (axis, (a, b)))
+        return f
+
+    def g_nonzero():
+        lst = [(str(a), str(b)) for a, b in t.nonzero()]
+        if len(lst) != len(set(lst)) or set(lst) != nz:
+            bad("nonzero", "nonzero() lists %r, non-zero cells are %r" %
+                (sorted(lst), sorted(nz)))
+
+    def g_sums():
+        if not close(float(t.sum("whole")), float(D.sum())):
+            bad("sum", "sum(whole)=%r, matrix %r" % (t.sum("whole"),
+                                                     D.sum()))
+        for axis, want in (("sample", D.sum(axis=0)),
+                           ("observation", D.sum(axis=1))):
+            got = np.asarray(t.sum(axis)).tolist()
+            if len(got) != len(want) or not all(
+                    close(a, b) for a, b in zip(got, want.tolist())):
+                bad("sum", "sum(%s)=%r, matrix %r" % (axis, got,
+                                                      want.tolist()))
+
+    groups = [g_counts, g_data("observation"), g_nonzero, g_data("sample"),
+              g_sums, g_cells, g_iter("observation"), g_iter("sample")]
+    k = phase % len(groups)
+    for g in groups[k:] + groups[:k]:
+        g()
+    # and once more: the first group again after everything else ran
+    groups[k]()
 
 
 def check(case, rec):
     t = gen.build(case["table"], with_history=False)
     seen = set(case["table"]["obs"]) | set(case["table"]["samp"])
-    invariant(t, seen, "construction")
+    phase = int(case.get("phase", 0))
+    invariant(t, seen, "construction", phase)
     applied = 0
     relayout = 0
     for k, op in enumerate(case["steps"]):
@@ -178,7 +209,7 @@ def check(case, rec):
                 raise
             except Exception:
                 rec.skip("refused-on-empty:%s" % op["op"])
-                invariant(t, seen, "refused step %d %r" % (k, op))
+                invariant(t, seen, "refused step %d %r" % (k, op), phase + k)
                 continue
         else:
             out = alphabet.apply(t, op)
@@ -197,8 +228,8 @@ def check(case, rec):
             else None
         try:
             for x in out.results:
-                invariant(x, seen, what + " (result)")
-            invariant(receiver, seen, what + " (receiver)")
+                invariant(x, seen, what + " (result)", phase + k)
+            invariant(receiver, seen, what + " (receiver)", phase + k + 3)
         except Violation as v:
             v.info.update({"op": op["op"], "receiver_empty": was_empty})
             raise
@@ -326,17 +357,21 @@ def enum_chunk(tier, chunk):
     ti, first, second = chunk
     tab = EXH_TABLES[ti]
     d = DEPTH[tier]
+    ph = (first + (second or 0)) % 8
     if second is None:
-        yield {"table": tab, "steps": [EXH_OPS[first]]}
+        yield {"table": tab, "steps": [EXH_OPS[first]], "phase": ph}
         if d >= 2:
-            for b in EXH_OPS:
-                yield {"table": tab, "steps": [EXH_OPS[first], b]}
+            for j, b in enumerate(EXH_OPS):
+                yield {"table": tab, "steps": [EXH_OPS[first], b],
+                       "phase": (ph + j) % 8}
     else:
         if second == 0:
-            yield {"table": tab, "steps": [EXH_OPS[first]]}
-        yield {"table": tab, "steps": [EXH_OPS[first], EXH_OPS[second]]}
-        for c in EXH_OPS:
-            yield {"table": tab, "steps": [EXH_OPS[first], EXH_OPS[second], c]}
+            yield {"table": tab, "steps": [EXH_OPS[first]], "phase": ph}
+        yield {"table": tab, "steps": [EXH_OPS[first], EXH_OPS[second]],
+               "phase": ph}
+        for j, c in enumerate(EXH_OPS):
+            yield {"table": tab, "steps": [EXH_OPS[first], EXH_OPS[second], c],
+                   "phase": (ph + j) % 8}
 
 
 def _collapse_empty_axis(case, v):
